@@ -48,7 +48,7 @@ Fixpoint grun (s : store) (g : ghost) (ops : list (bool * sop)) : store * ghost 
 Definition reached (m : option Z) (ex : Z) : Prop := exists t, m = Some t /\ ex <= t.
 
 (* the invariant *)
-Definition Inv (d : data) (g : ghost) : Prop :=
+Definition GInv (d : data) (g : ghost) : Prop :=
   uniq d /\
   (forall k v ex, lookup keqb d k = Some (v, ex) -> exists m, lookup keqb g k = Some (v, ex, m)) /\
   (forall k v ex m, lookup keqb g k = Some (v, ex, m) -> lookup keqb d k = Some (v, ex) \/ reached m ex).
@@ -63,7 +63,7 @@ Qed.
 Lemma reached_bump m ex now : reached m ex -> reached (Some (match m with Some t => Z.max t now | None => now end)) ex.
 Proof. intros (t & -> & Ht). exists (Z.max t now). split; [reflexivity|lia]. Qed.
 
-Lemma Inv_bump d g now : Inv d g -> Inv d (bump g now).
+Lemma GInv_bump d g now : GInv d g -> GInv d (bump g now).
 Proof.
   intros (U & H1 & H2). split; [exact U|]. split.
   - intros k v ex Hl. destruct (H1 k v ex Hl) as (m & Hm). rewrite lookup_bump, Hm. cbn [bump1]. eexists; reflexivity.
@@ -91,7 +91,7 @@ Proof.
 Qed.
 
 (* a sweep at [now] keeps the invariant provided every ghost entry has seen a write stamped >= now *)
-Lemma Inv_retain d g now : Inv d g -> Seen g now -> Inv (retain K d now) g.
+Lemma GInv_retain d g now : GInv d g -> Seen g now -> GInv (retain K d now) g.
 Proof.
   intros (U & H1 & H2) HS. split; [apply uniq_filter; exact U|]. split.
   - intros k v ex Hl. rewrite lookup_retain in Hl by exact U.
@@ -103,7 +103,7 @@ Proof.
     + right. destruct (HS k v ex m Hl) as (t & -> & Ht). exists t. split; [reflexivity|]. apply Z.ltb_ge in Hc. lia.
 Qed.
 
-Lemma Inv_insert d g k v ex : Inv d g -> Inv (insert keqb d k (v, ex)) (insert keqb g k (v, ex, None)).
+Lemma GInv_insert d g k v ex : GInv d g -> GInv (insert keqb d k (v, ex)) (insert keqb g k (v, ex, None)).
 Proof.
   intros (U & H1 & H2). split; [apply (uniq_insert K keqb keqb_spec); exact U|]. split.
   - intros k2 v2 ex2 Hl. rewrite lookup_insert in Hl by exact keqb_spec. rewrite lookup_insert by exact keqb_spec.
@@ -115,25 +115,25 @@ Qed.
 (* what a cleanup may do to the table: nothing, or a sweep at the time of the call *)
 Definition cleaned (d d1 : data) (now : Z) : Prop := d1 = d \/ d1 = retain K d now.
 
-Lemma Inv_cleaned d d1 g now : Inv d (bump g now) -> cleaned d d1 now -> Inv d1 (bump g now).
-Proof. intros HI [->| ->]; [exact HI|]. apply Inv_retain; [exact HI|apply Seen_bump]. Qed.
+Lemma GInv_cleaned d d1 g now : GInv d (bump g now) -> cleaned d d1 now -> GInv d1 (bump g now).
+Proof. intros HI [->| ->]; [exact HI|]. apply GInv_retain; [exact HI|apply Seen_bump]. Qed.
 
-Lemma Inv_setnx d g k v ttl now :
-  Inv d (bump g now) ->
-  Inv (fst (fst (d_setnx K keqb d k v ttl now)))
+Lemma GInv_setnx d g k v ttl now :
+  GInv d (bump g now) ->
+  GInv (fst (fst (d_setnx K keqb d k v ttl now)))
       (if snd (fst (d_setnx K keqb d k v ttl now)) then insert keqb (bump g now) k (v, now + ttl, None) else bump g now).
 Proof.
   intros HI. unfold d_setnx. destruct (lookup keqb d k) as [[c ex]|].
-  - destruct (now <? ex); cbn [fst snd]; [exact HI|apply Inv_insert; exact HI].
-  - cbn [fst snd]. apply Inv_insert; exact HI.
+  - destruct (now <? ex); cbn [fst snd]; [exact HI|apply GInv_insert; exact HI].
+  - cbn [fst snd]. apply GInv_insert; exact HI.
 Qed.
-Lemma Inv_cas d g k old new ttl now :
-  Inv d (bump g now) ->
-  Inv (fst (fst (d_cas K keqb d k old new ttl now)))
+Lemma GInv_cas d g k old new ttl now :
+  GInv d (bump g now) ->
+  GInv (fst (fst (d_cas K keqb d k old new ttl now)))
       (if snd (fst (d_cas K keqb d k old new ttl now)) then insert keqb (bump g now) k (new, now + ttl, None) else bump g now).
 Proof.
   intros HI. unfold d_cas. destruct (lookup keqb d k) as [[c ex]|]; [|exact HI].
-  destruct (ex <=? now); [exact HI|]. destruct (c =? old); cbn [fst snd]; [apply Inv_insert; exact HI|exact HI].
+  destruct (ex <=? now); [exact HI|]. destruct (c =? old); cbn [fst snd]; [apply GInv_insert; exact HI|exact HI].
 Qed.
 
 (* the shape of a write on any built-in store: a possible sweep at the call's own time, then the map operation *)
@@ -174,28 +174,28 @@ Lemma get_shape (s : store) orc k now : sdata K (fst (sstep K keqb s orc (Get k 
 Proof. destruct s; reflexivity. Qed.
 
 Theorem step_keeps_inv (s : store) (g : ghost) orc (o : sop) :
-  Inv (sdata K s) g ->
-  Inv (sdata K (fst (sstep K keqb s orc o))) (gstep g o (snd (sstep K keqb s orc o))).
+  GInv (sdata K s) g ->
+  GInv (sdata K (fst (sstep K keqb s orc o))) (gstep g o (snd (sstep K keqb s orc o))).
 Proof.
   intros HI. destruct o as [k now|k v ttl now|k old new ttl now].
   - rewrite get_shape. cbn [gstep]. exact HI.
   - destruct (setnx_shape s orc k v ttl now) as (d1 & Hc & Hd & Hr). rewrite Hd, Hr. cbn [gstep].
-    pose proof (Inv_setnx d1 g k v ttl now (Inv_cleaned _ _ _ _ (Inv_bump _ _ now HI) Hc)) as H.
+    pose proof (GInv_setnx d1 g k v ttl now (GInv_cleaned _ _ _ _ (GInv_bump _ _ now HI) Hc)) as H.
     destruct (snd (fst (d_setnx K keqb d1 k v ttl now))); exact H.
   - destruct (cas_shape s orc k old new ttl now) as (d1 & Hc & Hd & Hr). rewrite Hd, Hr. cbn [gstep].
-    pose proof (Inv_cas d1 g k old new ttl now (Inv_cleaned _ _ _ _ (Inv_bump _ _ now HI) Hc)) as H.
+    pose proof (GInv_cas d1 g k old new ttl now (GInv_cleaned _ _ _ _ (GInv_bump _ _ now HI) Hc)) as H.
     destruct (snd (fst (d_cas K keqb d1 k old new ttl now))); exact H.
 Qed.
 
 Theorem run_keeps_inv : forall (ops : list (bool * sop)) (s : store) (g : ghost),
-  Inv (sdata K s) g -> Inv (sdata K (fst (grun s g ops))) (snd (grun s g ops)).
+  GInv (sdata K s) g -> GInv (sdata K (fst (grun s g ops))) (snd (grun s g ops)).
 Proof.
   induction ops as [|[orc o] r IH]; intros s g HI; cbn [grun]; [exact HI|].
   pose proof (step_keeps_inv s g orc o HI) as H1.
   destruct (sstep K keqb s orc o) as [s1 res]. cbn [fst snd] in H1. apply IH; exact H1.
 Qed.
 
-Lemma Inv_empty : Inv [] [].
+Lemma GInv_empty : GInv [] [].
 Proof. split; [constructor|]. split; intros; discriminate. Qed.
 
 (* the ghost run does not disturb the real run *)
@@ -218,7 +218,7 @@ Theorem no_silent_loss :
   exists t, m = Some t /\ now < ex <= t.
 Proof.
   intros s0 ops k v ex m now H0 Hg Hlt Hget.
-  pose proof (run_keeps_inv ops s0 [] ) as HI. rewrite H0 in HI. specialize (HI Inv_empty).
+  pose proof (run_keeps_inv ops s0 [] ) as HI. rewrite H0 in HI. specialize (HI GInv_empty).
   rewrite grun_fst in HI. destruct HI as (_ & _ & H2). destruct (H2 k v ex m Hg) as [L|(t & -> & Ht)].
   - unfold d_get in Hget. rewrite L in Hget. apply Z.ltb_lt in Hlt. rewrite Hlt in Hget. discriminate.
   - exists t. split; [reflexivity|lia].
@@ -232,7 +232,7 @@ Theorem table_shows_last_write :
   exists ex m, lookup keqb (snd (grun s0 [] ops)) k = Some (v, ex, m) /\ now < ex.
 Proof.
   intros s0 ops k v now H0 Hget.
-  pose proof (run_keeps_inv ops s0 []) as HI. rewrite H0 in HI. specialize (HI Inv_empty).
+  pose proof (run_keeps_inv ops s0 []) as HI. rewrite H0 in HI. specialize (HI GInv_empty).
   rewrite grun_fst in HI. destruct HI as (_ & H1 & _).
   unfold d_get in Hget. destruct (lookup keqb (sdata K (fst (srun K keqb s0 ops))) k) as [[v0 ex0]|] eqn:Hl; [|discriminate].
   destruct (now <? ex0) eqn:Hc; [|discriminate]. injection Hget as ->.
